@@ -120,6 +120,17 @@ claim("C11",
       "roots close a cycle and the DSL also reported errors either error is accepted.",
       "TLC exhaustive model checking + TLC trace validation of real callback logs", "DESIGN.md 6 (C11)")
 
+claim("C10",
+      "GRPCTransport.tla (proto field table, rpc table, descriptor verdict; ClientEncode -> ServerDecode -> Validate -> Invoke -> ServerEncode -> ClientDecode "
+      "with message / metadata / header / trailer locations; lib/Values.tla value classes and rules; five named deviations) is model-checked exhaustively for "
+      "the request, result and well-formedness families; every case is generated by the real gRPC generators with a protoc stand-in (harness/cmd/fakeprotoc: "
+      "own proto3 parser + protodesc.NewFile as independent well-formedness oracle + stand-in pb.go), compiled, and executed in process through the real "
+      "generated client endpoint and server handler against a recording stub; recorded events are judged against the predictions and validated by TLC as traces.",
+      "Trusted: fakeprotoc (parser, descriptor construction, stand-in structs: not real protobuf messages, no wire serialisation), protodesc as proto3 oracle, "
+      "harness/grpcrt. Stream Send/Recv is not executed (rpc declarations only). Response header/trailer round trips are set aside while goa's generated code "
+      "for them does not compile (recorded in evidence as a C01-class finding).",
+      "TLC exhaustive model checking + generated code executed in process + TLC trace validation", "DESIGN.md 6 (C10)")
+
 for p in ALL:
     if p not in CLAIMED:
         NOT_APPLICABLE[p] = "check not built yet in this revision (planned with the same technique, see DESIGN.md section 6)"
